@@ -1,7 +1,33 @@
-//! DonchianChannel — reference model (TODO).
+//! DonchianChannel. Doc: 3 values — lower bound, middle value ("always middle value between upper bound and
+//! lower bound"), upper bound. Linked formula (wikipedia): upper = highest high of the last `period` candles,
+//! lower = lowest low of the last `period` candles, middle = their average.
+//! 1 signal — `high` hits the upper bound: full buy; `low` hits the lower bound: full sell; both or neither: none.
 use super::*;
 
-/// returns None until the reference is written
-pub fn make(_cfg: &Cfg, _c0: &RC) -> Option<Box<dyn IndRef>> {
-	None
+#[derive(Clone)]
+struct Donchian {
+	hi: Ext,
+	lo: Ext,
+}
+
+pub fn make(cfg: &Cfg, c0: &RC) -> Option<Box<dyn IndRef>> {
+	let n = cfg.int("period");
+	Some(Box::new(Donchian { hi: Ext::new(n, c0.h), lo: Ext::new(n, c0.l) }))
+}
+
+impl IndRef for Donchian {
+	fn values(&mut self, c: &RC) -> Vec<Q> {
+		self.hi.push(c.h);
+		self.lo.push(c.l);
+		let upper = Q::exact(self.hi.highest());
+		let lower = Q::exact(self.lo.lowest());
+		vec![lower, (upper + lower).scale(0.5), upper]
+	}
+	fn signals(&mut self, c: &RC, own: &[f64]) -> Vec<Sig> {
+		let (lower, upper) = (own[0], own[2]);
+		let buy = c.h >= upper;
+		let sell = c.l <= lower;
+		vec![sig_sign(buy as i32 - sell as i32)]
+	}
+	indref!(Donchian);
 }
